@@ -79,7 +79,9 @@ def check_combination(ctx, case):
     if op == 'centered' and mean is not None:
         kw['mean'] = mean
     p = must(case, 'constructing %s(%s)' % (op, sorted(kw)), klass, **kw)
-    out = must(case, '%s on %s%s' % (op, traces.dtype, traces.shape), p, traces)
+    if traces.shape[0] > 1:
+        must(case, '%s priming call on other traces' % op, p, np.ascontiguousarray(traces[::-1]))     # the same object is reused: no state may leak into the next call
+    out = must(case, '%s on %s%s' % (op, traces.dtype, traces.shape), p, gen.L(case, traces))
     n, L = traces.shape
     pairs = _pairs(cfg, L)
     odt = _expected_dtype(traces.dtype, prec)
@@ -166,7 +168,7 @@ def check_first_order(ctx, case):
             f = pp.StandardizeOn(mean=case['mean'], std=case['std'], precision=prec)
         else:
             raise ValueError(op)
-        out = must(case, '%s on %s%s' % (op, traces.dtype, traces.shape), f, traces)
+        out = must(case, '%s on %s%s' % (op, traces.dtype, traces.shape), f, gen.L(case, traces))
     if not isinstance(out, np.ndarray) or out.ndim != 2 or out.shape[0] != n:
         raise Violation('%s: result is not a 2-D array with one row per trace' % op, case)
     batch_dep = op in ('center', 'standardize') or (op == 'centeron' and case['mean'] is None) or (op == 'standardizeon' and (case['mean'] is None or case['std'] is None))
@@ -281,7 +283,9 @@ def check_timefreq(ctx, case):
     with warnings.catch_warnings():
         warnings.simplefilter('ignore')
         p = must(case, 'constructing %s(%s)' % (op, sorted(kw)), klass, **kw)
-        out = must(case, '%s on %s%s' % (op, traces.dtype, traces.shape), p, traces)
+        if traces.shape[0] > 1:
+            must(case, '%s priming call on other traces' % op, p, np.ascontiguousarray(traces[::-1]))     # the same object is reused: no state may leak into the next call
+        out = must(case, '%s on %s%s' % (op, traces.dtype, traces.shape), p, gen.L(case, traces))
     n, L = traces.shape
     g1 = f1 if f1 is not None else f2
     g2 = f2 if f2 is not None else f1
